@@ -1,6 +1,7 @@
 package main
 
 import (
+	"os"
 	"fmt"
 	"runtime/debug"
 	"go/types"
@@ -298,7 +299,12 @@ func (e *Engine) verifyFunction(fn *ssa.Function, fc *FuncContract) (c *Ctx) {
 				ob.Clause = "nothing outside the modifies clause changed: " + strings.Join(fkeys, ", ")
 			}
 		}
+		var gnames []string
 		for name := range rt.st.ghosts {
+			gnames = append(gnames, name)
+		}
+		sort.Strings(gnames)
+		for _, name := range gnames {
 			if c.ghostTerm(rt.st, name) != c.ghostTerm(entryState, name) {
 				if _, ok := objs["ghost:"+name]; !ok {
 					f.oblige("frame[ghost:"+name+"]"+suffix, nil, rt.reach, "(= "+c.ghostTerm(rt.st, name)+" "+c.ghostTerm(entryState, name)+")")
@@ -415,11 +421,11 @@ func (e *Engine) prelude(c *Ctx) string {
 	}
 	// concatenation facts among short literals
 	for a, sa := range e.litOrder {
-		if len(sa) == 0 || len(sa) > 2 {
+		if len(sa) == 0 {
 			continue
 		}
 		for b, sb2 := range e.litOrder {
-			if len(sb2) == 0 || len(sb2) > 2 {
+			if len(sb2) == 0 {
 				continue
 			}
 			if cidx, ok := e.lits[sa+sb2]; ok {
@@ -427,11 +433,15 @@ func (e *Engine) prelude(c *Ctx) string {
 			}
 		}
 	}
+	sb.WriteString("(assert (forall ((s Str)) (! (=> (= (slen s) 0) (= s lit!0)) :pattern ((slen s)))))\n")
 	sb.WriteString("(assert (forall ((s Str) (a Int)) (! (= (substr s a a) lit!0) :pattern ((substr s a a)))))\n")
 	sb.WriteString("(assert (forall ((s Str)) (! (= (sconcat s lit!0) s) :pattern ((sconcat s lit!0)))))\n")
 	sb.WriteString("(assert (forall ((s Str)) (! (= (sconcat lit!0 s) s) :pattern ((sconcat lit!0 s)))))\n")
 	for _, n := range e.ufOrder {
 		sb.WriteString(e.ufuncs[n] + "\n")
+	}
+	for _, d := range e.fmtDefs {
+		sb.WriteString(d)
 	}
 	for _, n := range e.zarrOrder {
 		z := e.zarrs[n]
@@ -537,5 +547,8 @@ func (ob *Obligation) queryWith(prelude string, gax []string, lean bool) string 
 	sb.WriteString("(assert " + ob.Reach + ")\n")
 	sb.WriteString("(assert (not " + ob.Goal + "))\n")
 	sb.WriteString("(check-sat)\n")
-	return sb.String()
+	if os.Getenv("GOVC_NOPRUNE") != "" {
+		return sb.String()
+	}
+	return pruneQuery(sb.String())
 }
